@@ -96,4 +96,107 @@ Lemma m4_entry : forall a0 a1 a2 a3 a4 a5 a6 a7 a8 a9 a10 a11 a12 a13 a14 a15 : 
   A 0%nat 1%nat = a1 /\ A 1%nat 0%nat = a4 /\ A 2%nat 3%nat = a11 /\ A 3%nat 2%nat = a14.
 Proof. intros. gsimp. auto. Qed.
 
+(* ---- second round: rows, columns, Mat4.scale, the Mat3 transforms, rounding ---- *)
+Lemma Mat4_row_0_ok : forall (A : V16 R) j, (j < 4)%nat -> v4 (Mat4_row_0 A) j = m4 A 0%nat j.
+Proof. intros A j Hj. dv16 A. lt4 j; reflexivity. Qed.
+Lemma Mat4_column_0_ok : forall (A : V16 R) i, (i < 4)%nat -> v4 (Mat4_column_0 A) i = m4 A i 0%nat.
+Proof. intros A i Hi. dv16 A. lt4 i; reflexivity. Qed.
+Lemma Mat4_row_1_ok : forall (A : V16 R) j, (j < 4)%nat -> v4 (Mat4_row_1 A) j = m4 A 1%nat j.
+Proof. intros A j Hj. dv16 A. lt4 j; reflexivity. Qed.
+Lemma Mat4_column_1_ok : forall (A : V16 R) i, (i < 4)%nat -> v4 (Mat4_column_1 A) i = m4 A i 1%nat.
+Proof. intros A i Hi. dv16 A. lt4 i; reflexivity. Qed.
+Lemma Mat4_row_2_ok : forall (A : V16 R) j, (j < 4)%nat -> v4 (Mat4_row_2 A) j = m4 A 2%nat j.
+Proof. intros A j Hj. dv16 A. lt4 j; reflexivity. Qed.
+Lemma Mat4_column_2_ok : forall (A : V16 R) i, (i < 4)%nat -> v4 (Mat4_column_2 A) i = m4 A i 2%nat.
+Proof. intros A i Hi. dv16 A. lt4 i; reflexivity. Qed.
+Lemma Mat4_row_3_ok : forall (A : V16 R) j, (j < 4)%nat -> v4 (Mat4_row_3 A) j = m4 A 3%nat j.
+Proof. intros A j Hj. dv16 A. lt4 j; reflexivity. Qed.
+Lemma Mat4_column_3_ok : forall (A : V16 R) i, (i < 4)%nat -> v4 (Mat4_column_3 A) i = m4 A i 3%nat.
+Proof. intros A i Hi. dv16 A. lt4 i; reflexivity. Qed.
+
+(* Mat4.scale multiplies the diagonal entries 0, 5, 10 ... *)
+Lemma Mat4_scale_ok : forall (A : V16 R) (s : V3 R) i j, (i < 4)%nat -> (j < 4)%nat ->
+  m4 (Mat4_scale A s) i j = scale_diag (m4 A) (v3 s) i j.
+Proof. intros A s i j Hi Hj. dv16 A. dv3 s. lt4 i; lt4 j; msolve. Qed.
+(* ... which is A @ from_scale(s) when the rest of the first three columns is
+   zero (the identity, scale matrices; NOT a matrix with a translation row) *)
+Lemma Mat4_scale_is_product : forall (A : V16 R) (s : V3 R),
+  (forall i j, (i < 4)%nat -> (j < 3)%nat -> i <> j -> m4 A i j = 0) ->
+  Mat4_scale A s = Mat4_matmul_m A (Mat4_from_scale s).
+Proof.
+  intros A s H. dv16 A. dv3 s.
+  pose proof (H 0 1 ltac:(lia) ltac:(lia) ltac:(lia)) as H01.
+  pose proof (H 0 2 ltac:(lia) ltac:(lia) ltac:(lia)) as H02.
+  pose proof (H 1 0 ltac:(lia) ltac:(lia) ltac:(lia)) as H10.
+  pose proof (H 1 2 ltac:(lia) ltac:(lia) ltac:(lia)) as H12.
+  pose proof (H 2 0 ltac:(lia) ltac:(lia) ltac:(lia)) as H20.
+  pose proof (H 2 1 ltac:(lia) ltac:(lia) ltac:(lia)) as H21.
+  pose proof (H 3 0 ltac:(lia) ltac:(lia) ltac:(lia)) as H30.
+  pose proof (H 3 1 ltac:(lia) ltac:(lia) ltac:(lia)) as H31.
+  pose proof (H 3 2 ltac:(lia) ltac:(lia) ltac:(lia)) as H32.
+  gsimp in H01. gsimp in H02. gsimp in H10. gsimp in H12. gsimp in H20. gsimp in H21.
+  gsimp in H30. gsimp in H31. gsimp in H32. clear H. subst.
+  gsimp. tuple_eq; ring.
+Qed.
+
+(* the Mat3 transforms: M @ the stated matrix (as the code writes them:
+   scale divides by its arguments, translate moves by (-tx, +ty)) *)
+Lemma Mat3_scale_ok : forall (A : V9 R) (sx sy : R) i j, (i < 3)%nat -> (j < 3)%nat ->
+  m3 (Mat3_scale A sx sy) i j = mmul 3 (m3 A) (m3_scale sx sy) i j.
+Proof. intros A sx sy i j Hi Hj. dv9 A. lt3 i; lt3 j; msolve. Qed.
+Lemma Mat3_translate_ok : forall (A : V9 R) (tx ty : R) i j, (i < 3)%nat -> (j < 3)%nat ->
+  m3 (Mat3_translate A tx ty) i j = mmul 3 (m3 A) (m3_translate tx ty) i j.
+Proof. intros A tx ty i j Hi Hj. dv9 A. lt3 i; lt3 j; msolve. Qed.
+Lemma Mat3_rotate_ok : forall (A : V9 R) (phi : R) i j, (i < 3)%nat -> (j < 3)%nat ->
+  m3 (Mat3_rotate A phi) i j
+  = mmul 3 (m3 A) (m3_rotate (cos (phi * PI / 180)) (sin (phi * PI / 180))) i j.
+Proof. intros A phi i j Hi Hj. dv9 A. lt3 i; lt3 j; gsimp; unfold Rradians; ring. Qed.
+Lemma Mat3_shear_ok : forall (A : V9 R) (sx sy : R) i j, (i < 3)%nat -> (j < 3)%nat ->
+  m3 (Mat3_shear A sx sy) i j = mmul 3 (m3 A) (m3_shear sx sy) i j.
+Proof. intros A sx sy i j Hi Hj. dv9 A. lt3 i; lt3 j; msolve. Qed.
+(* what they do to a point (x, y, 1), starting from the identity *)
+Lemma Mat3_transforms_act : forall x y a b phi : R, a <> 0 -> b <> 0 ->
+  Mat3_matmul_v (Mat3_scale Mat3_new a b) (x, y, 1) = (x / a, y / b, 1) /\
+  Mat3_matmul_v (Mat3_translate Mat3_new a b) (x, y, 1) = (x - a, y + b, 1) /\
+  Mat3_matmul_v (Mat3_rotate Mat3_new phi) (x, y, 1)
+  = (x * cos (phi * PI / 180) - y * sin (phi * PI / 180),
+     x * sin (phi * PI / 180) + y * cos (phi * PI / 180), 1) /\
+  Mat3_matmul_v (Mat3_shear Mat3_new a b) (x, y, 1) = (x + a * y, b * x + y, 1).
+Proof.
+  intros x y a b phi Ha Hb. gsimp. unfold Rradians.
+  repeat split; tuple_eq; first [ring | field; assumption].
+Qed.
+
+(* __round__ rounds every entry (Rround: half to even, Math/RInst.v) *)
+Lemma Vec2_round_n_ok : forall (a : V2 R) i, (i < 2)%nat -> v2 (Vec2_round_n a) i = Rround (v2 a i) 0.
+Proof. intros a i Hi. dv2 a. lt2 i; reflexivity. Qed.
+Lemma Vec2_round_2_ok : forall (a : V2 R) i, (i < 2)%nat -> v2 (Vec2_round_2 a) i = Rround (v2 a i) 2.
+Proof. intros a i Hi. dv2 a. lt2 i; reflexivity. Qed.
+Lemma Vec3_round_n_ok : forall (a : V3 R) i, (i < 3)%nat -> v3 (Vec3_round_n a) i = Rround (v3 a i) 0.
+Proof. intros a i Hi. dv3 a. lt3 i; reflexivity. Qed.
+Lemma Vec3_round_2_ok : forall (a : V3 R) i, (i < 3)%nat -> v3 (Vec3_round_2 a) i = Rround (v3 a i) 2.
+Proof. intros a i Hi. dv3 a. lt3 i; reflexivity. Qed.
+Lemma Vec4_round_n_ok : forall (a : V4 R) i, (i < 4)%nat -> v4 (Vec4_round_n a) i = Rround (v4 a i) 0.
+Proof. intros a i Hi. dv4 a. lt4 i; reflexivity. Qed.
+Lemma Vec4_round_2_ok : forall (a : V4 R) i, (i < 4)%nat -> v4 (Vec4_round_2 a) i = Rround (v4 a i) 2.
+Proof. intros a i Hi. dv4 a. lt4 i; reflexivity. Qed.
+Lemma Mat3_round_n_ok : forall (A : V9 R) i j, (i < 3)%nat -> (j < 3)%nat -> m3 (Mat3_round_n A) i j = Rround (m3 A i j) 0.
+Proof. intros A i j Hi Hj. dv9 A. lt3 i; lt3 j; reflexivity. Qed.
+Lemma Mat3_round_2_ok : forall (A : V9 R) i j, (i < 3)%nat -> (j < 3)%nat -> m3 (Mat3_round_2 A) i j = Rround (m3 A i j) 2.
+Proof. intros A i j Hi Hj. dv9 A. lt3 i; lt3 j; reflexivity. Qed.
+Lemma Mat4_round_n_ok : forall (A : V16 R) i j, (i < 4)%nat -> (j < 4)%nat -> m4 (Mat4_round_n A) i j = Rround (m4 A i j) 0.
+Proof. intros A i j Hi Hj. dv16 A. lt4 i; lt4 j; reflexivity. Qed.
+Lemma Mat4_round_2_ok : forall (A : V16 R) i j, (i < 4)%nat -> (j < 4)%nat -> m4 (Mat4_round_2 A) i j = Rround (m4 A i j) 2.
+Proof. intros A i j Hi Hj. dv16 A. lt4 i; lt4 j; reflexivity. Qed.
+(* what Rround is: a multiple of 10^-n within half a unit of x *)
+Lemma Rround_int_close : forall x : R, Rabs (IZR (Rround_int x) - x) <= 1 / 2.
+Proof.
+  intros x. unfold Rround_int, Rfloor.
+  destruct (archimed x) as [H1 H2]. rewrite minus_IZR.
+  set (u := IZR (up x)) in *.
+  destruct (Rltb_spec (x - (u - 1)) (1 / 2)); [|destruct (Rltb_spec (1 / 2) (x - (u - 1)))];
+    [ | | destruct (Z.even (up x - 1))];
+    rewrite ?plus_IZR, ?minus_IZR; fold u; apply Rabs_le; split; lra.
+Qed.
+
 End R.
